@@ -289,6 +289,16 @@ def blueprint_text(spec):
     xs = ["A"] * nb
     cart = spec.get("geom") == "cartesian"
     blocks_text = _cartesian_blocks(BLOCKS) if cart else BLOCKS
+    if spec.get("liner") and not spec.get("pins"):
+        # a solid liner of user-defined composition (material Custom) between bond and clad
+        blocks_text = _in_block(
+            blocks_text,
+            "    fuel: &block_fuel",
+            "            od: clad.id\n",
+            "            od: liner.id\n        liner:\n            shape: Circle\n            material: Custom\n            isotopics: liner iso\n"
+            "            Tinput: 25.0\n            Thot: 450.0\n            id: 0.97\n            mult: fuel.mult\n            od: clad.id\n",
+        )
+        blocks_text = "custom isotopics:\n    liner iso:\n        input format: mass fractions\n        density: 6.5\n        ZR: 1.0\n" + blocks_text
     if cart and spec.get("rect_duct"):
         # the fuel blocks' duct is the same square, declared as a Rectangle (a Square is a Rectangle
         # subclass; axial linkage is between components of identical type only)
